@@ -28,7 +28,7 @@ def _alarm(signum, frame):
     raise ProgramTimeout()
 
 
-PROGRAM_TIME_LIMIT = 150  # seconds per program; a slower one is dropped (counted), never a finding
+PROGRAM_TIME_LIMIT = 60  # seconds per program; a slower one is dropped (counted), never a finding
 
 
 def _restart_lean():
